@@ -5,7 +5,7 @@ LEVEL = "model_checking"
 
 
 def check(run):
-    cpu_common.run_cpu(run, ["ops", "edge", "seq", "alu", "rot", "bit", "sp", "w16", "keys", "daacsv"],
+    cpu_common.run_cpu(run, ["ops", "edge", "seq", "alu", "rot", "bit", "sp", "w16", "keys", "dbg", "daacsv"],
                        "one event per executed instruction (registers before, fetched bytes, per-cycle bus log, registers after, cycles), validated against SM83!Exec: "
                        "ops = every defined opcode (245 + 256 CB) x random full states; alu = 8 ALU ops x A x operand x carry (all 256x256x2 in thorough); "
                        "rot = all CB rotates/shifts and RLCA/RRCA/RLA/RRA x 256 values x carry, DAA x 256 x 16 flag nibbles; bit = INC/DEC r,(HL) x 256 and BIT/RES/SET x 256; "
